@@ -15,7 +15,7 @@ Quick == Tier = "quick"
 FirstBytes == IF Quick THEN {0, 1, 2, 6, 7, 255} ELSE (0..9) \cup {127, 128, 255}
 MaxLen == 1 + 32 * (5 + 6 + 2 * 4) + 33
 \* long encodings: many folding rounds (the decoder puts no upper limit on k)
-LongLens == { 1 + 32 * (5 + d + 2 * k) + e : d \in {1, 6}, k \in {13, 14, 15, 16, 17, 18, 31, 100}, e \in {0, 1} }
+LongLens == { 1 + 32 * (5 + d + 2 * k) + e : d \in {1, 6}, k \in {13, 14, 15, 16, 17, 18, 31, 100, 124, 125, 126, 129, 255, 256, 300}, e \in {0, 1} }
 Lens == (IF Quick THEN {x \in 0..MaxLen : x % 32 \in {0, 1, 2, 31} \/ x < 4} ELSE 0..MaxLen) \cup LongLens
 
 VARIABLES pc, len, fb, nc, tag, pos, pairs, res
@@ -50,7 +50,7 @@ Spec == Init /\ [][Next]_vars
 
 \* the acceptance set of C15, in closed form
 Closed == /\ len >= 1 /\ fb \in 1..6 /\ Rem = 0
-          /\ \E k \in 1..120 : NCh = 5 + fb + 2 * k
+          /\ (NCh - 5 - fb) % 2 = 0 /\ NCh - 5 - fb >= 2
           /\ (nc = 0 \/ ~(nc <= fb \/ nc \in {fb + 4, fb + 5}))
 C15 == pc = "done" => ((res = "ok") <=> Closed)
 \* decoding is total: every input ends in a value or an error (C16)
